@@ -277,7 +277,7 @@ fn gcase() -> BoxedStrategy<CkCase> {
     let ops = prop_oneof![
         30 => proptest::collection::vec(gcop(), 0..=8),
         // more than 64 algorithms, inserted in descending order, followed by a few more operations
-        1 => (65usize..=90, proptest::collection::vec(gcop(), 0..=3)).prop_map(|(n, tail)| {
+        1 => (prop_oneof![2 => (65usize..=90).boxed(), 1 => crate::spell::gcount(100)], proptest::collection::vec(gcop(), 0..=3)).prop_map(|(n, tail)| {
             let mut v: Vec<COp> = (0..n).rev().map(|i| COp::Insert(format!("h{i:02}"), vec![i as u8])).collect();
             v.extend(tail);
             v
